@@ -84,7 +84,10 @@ RW_Limit(o)      == (cfg.metric = "vv" /\ hist # <<>>) =>
 RW_SameBeta(o)   == (hist # <<>>) => (o.ess = o.essAt /\ o.logz = o.logzAt /\ o.wts = o.wtsAt)
 RW_RefAgrees(o)  == o.refAgrees
 
-\* ---- Train.  o = [branch, fitted, K, modes, modesOK]
+\* ---- Train.  o = [branch, fitted, K, modes, modesOK, wtsOut]
+\* wtsOut: content tag of the weight vector as it leaves the training step, i.e. as resampling receives it (the same array object
+\* is handed from reweighting to training to resampling): still the weights of the recorded temperature
+TR_WeightsIntact(o) == o.wtsOut = wts
 TR_Skip(o)          == (o.branch = "Skip") <=> (beta = 0)
 TR_Branch(o)        == beta > 0 => (IF cfg.clustering THEN o.branch \in {"Fit", "PredictOnly"} ELSE o.branch = "Global")
 TR_PredictFitted(o) == o.branch = "PredictOnly" => clus.fitted
@@ -170,7 +173,7 @@ RW_Clauses(o) == [RW_Iter |-> RW_Iter(o), RW_FirstZero |-> RW_FirstZero(o), RW_M
                   RW_SameBeta |-> RW_SameBeta(o), RW_RefAgrees |-> RW_RefAgrees(o)]
 TR_Clauses(o) == [TR_Skip |-> TR_Skip(o), TR_Branch |-> TR_Branch(o), TR_PredictFitted |-> TR_PredictFitted(o),
                   TR_Cadence |-> TR_Cadence(o), TR_FitSets |-> TR_FitSets(o), TR_Cap |-> TR_Cap(o),
-                  TR_ModesOK |-> TR_ModesOK(o), TR_ModesExist |-> TR_ModesExist(o)]
+                  TR_ModesOK |-> TR_ModesOK(o), TR_ModesExist |-> TR_ModesExist(o), TR_WeightsIntact |-> TR_WeightsIntact(o)]
 RS_Clauses(o) == [RS_WholeCopies |-> RS_WholeCopies(o), RS_Count |-> RS_Count(o), RS_LabelRange |-> RS_LabelRange(o),
                   RS_LabelsFromModel |-> RS_LabelsFromModel(o)]
 MP_Clauses(o) == [MP_Count |-> MP_Count(o), MP_Coherent |-> MP_Coherent(o), MP_NoInf |-> MP_NoInf(o),
